@@ -14,6 +14,9 @@ inductive Op where
   | kill
   | append (t : Topic) (p : Pay)
   | batch (t : Topic) (ps : List Pay)
+  /-- `append` / `batch` with an injected I/O fault armed for this one operation (hook H1) -/
+  | appendF (t : Topic) (p : Pay) (flt : Fault)
+  | batchF (t : Topic) (ps : List Pay) (flt : Fault)
   | next (t : Topic) (cp : Bool)
   | bread (t : Topic) (maxB : Nat) (cp : Bool) (start : Option Nat)
   | count (t : Topic)
@@ -44,6 +47,8 @@ def step (c : Cfg) (p : Proc) : Op → Proc × Out
   | .kill => (killProc p, .ok)
   | .append t pay => withInst p fun i => appendForTopic c p i t pay
   | .batch t ps => withInst p fun i => batchAppendForTopic c p i t ps
+  | .appendF t pay flt => withInst p fun i => appendForTopic c p i t pay (some flt)
+  | .batchF t ps flt => withInst p fun i => batchAppendForTopic c p i t ps (some flt)
   | .next t cp => withInst p fun i => readNext c p i t cp
   | .bread t m cp st => withInst p fun i => batchRead c p i t m cp st
   | .count t => withInst p fun i => (p, i, .num ((i.counts.get? t).getD 0))
